@@ -611,6 +611,26 @@ func (x *Exec) specCall(env *SpecEnv, e *ECall) Value {
 		return sc(x.ghostGet(env.st, e.Fn, arg(0), SBool))
 	case "stream":
 		return SeqV{x.streamOf(arg(0))}
+	case "shiftseq":
+		sq := arg(0)
+		var arr Term
+		switch a := sq.(type) {
+		case SeqV:
+			arr = a.Arr
+		case SliceV:
+			st := env.st
+			if a.Pre {
+				st = env.preSt
+			}
+			arr = x.seqOf(st, a)
+		default:
+			fail("spec: shiftseq of %T", sq)
+		}
+		o := asTerm(arg(1))
+		if o.S == "0" {
+			return SeqV{arr}
+		}
+		return SeqV{App(arr.Sort, "shift_"+sortTag(elemOfArr(arr.Sort)), arr, o)}
 	case "sentval":
 		return sc(Select(x.ghostGet(env.st, "sendlog", arg(0), ArrSort(SInt)), asTerm(arg(1))))
 	case "errname":
